@@ -536,4 +536,282 @@ theorem removeVar_extend (v : Nat) (st : GenSt) (hv : v < A.length) (hpos : 0 < 
 
 end ext
 
+/-! ## invariants of the elimination loop -/
+
+/-- every node has a key, and only variables not yet eliminated occur -/
+def LInvL (active : List Nat) (g : List LNode) : Prop := ∀ nd ∈ g, nd.keys ≠ [] ∧ ∀ u ∈ nd.keys, u ∈ active
+
+theorem addRule_keys (keys : List Nat) (r : Nat × Nat) : ∀ (g : List LNode), ∀ nd ∈ addRule keys r g,
+    nd.keys = keys ∨ ∃ nd' ∈ g, nd'.keys = nd.keys
+  | [], nd, h => by simp [addRule] at h; subst h; exact Or.inl rfl
+  | x :: g, nd, h => by
+    simp only [addRule] at h
+    split at h
+    · rcases List.mem_cons.mp h with h | h
+      · subst h; exact Or.inr ⟨x, List.mem_cons_self .., rfl⟩
+      · exact Or.inr ⟨nd, List.mem_cons_of_mem _ h, rfl⟩
+    · rcases List.mem_cons.mp h with h | h
+      · subst h; exact Or.inr ⟨nd, List.mem_cons_self .., rfl⟩
+      · rcases addRule_keys keys r g nd h with h' | ⟨nd', h1, h2⟩
+        · exact Or.inl h'
+        · exact Or.inr ⟨nd', List.mem_cons_of_mem _ h1, h2⟩
+
+theorem addRule_rules (keys : List Nat) (r : Nat × Nat) : ∀ (g : List LNode), ∀ nd ∈ addRule keys r g,
+    ∀ r' ∈ nd.rules, r' = r ∨ ∃ nd' ∈ g, r' ∈ nd'.rules
+  | [], nd, h, r', hr' => by
+    simp [addRule] at h; subst h
+    simp at hr'; exact Or.inl hr'
+  | x :: g, nd, h, r', hr' => by
+    simp only [addRule] at h
+    split at h
+    · rcases List.mem_cons.mp h with h | h
+      · subst h
+        simp only [List.mem_append, List.mem_singleton] at hr'
+        rcases hr' with hr' | hr'
+        · exact Or.inr ⟨x, List.mem_cons_self .., hr'⟩
+        · exact Or.inl hr'
+      · exact Or.inr ⟨nd, List.mem_cons_of_mem _ h, hr'⟩
+    · rcases List.mem_cons.mp h with h | h
+      · subst h; exact Or.inr ⟨nd, List.mem_cons_self .., hr'⟩
+      · rcases addRule_rules keys r g nd h r' hr' with h' | ⟨nd', h1, h2⟩
+        · exact Or.inl h'
+        · exact Or.inr ⟨nd', List.mem_cons_of_mem _ h1, h2⟩
+
+section inv
+variable (A : List Nat) (n : Nat) (sides : Nat)
+
+theorem veRows_bound (B : Nat) (pos : List Nat) (neg : Nat) (hneg : neg + sides ≤ B) (hpos : ∀ c ∈ pos, c + sides ≤ B) :
+    ∀ r ∈ veRows sides pos neg, ∀ e ∈ r.ent, e.1 < B := by
+  intro r hr e he
+  simp only [veRows, List.mem_map, List.mem_range] at hr
+  obtain ⟨d, hd, rfl⟩ := hr
+  simp only [List.mem_cons, List.mem_map] at he
+  rcases he with rfl | ⟨c, hc, rfl⟩
+  · simp only; omega
+  · have := hpos c hc; simp only; omega
+
+theorem overValues_bound (B : Nat) (nb jv : List Nat) (v : Nat) (factors : List LNode) (col : Nat) (hcol : col + sides ≤ B)
+    (hf : ∀ nd ∈ factors, ∀ r ∈ nd.rules, r.2 + sides ≤ B) : ∀ (cnt k0 : Nat),
+    ∀ r ∈ overValues A n sides nb jv v factors col cnt k0, ∀ e ∈ r.ent, e.1 < B
+  | 0, _, r, hr, _, _ => by simp [overValues] at hr
+  | cnt+1, k0, r, hr, e, he => by
+    simp only [overValues, List.mem_append] at hr
+    rcases hr with hr | hr
+    · refine veRows_bound sides B _ col hcol ?_ r hr e he
+      intro c hc
+      obtain ⟨nd, hnd, r', hr', e'⟩ := mem_hits A _ factors c hc
+      rw [← e']; exact hf nd hnd r' hr'
+    · exact overValues_bound B nb jv v factors col hcol hf cnt (k0+1) r hr e he
+
+theorem removeLoop_inv (nb : List Nat) (v : Nat) (factors : List LNode) : ∀ (cnt j : Nat) (st : GenSt),
+    CInv sides st → RInv st → (∀ nd ∈ factors, ∀ r ∈ nd.rules, r.2 + sides ≤ st.ncols) →
+    CInv sides (removeLoop A n sides nb v factors cnt j st) ∧ RInv (removeLoop A n sides nb v factors cnt j st) ∧
+    (∀ r ∈ st.rows, r ∈ (removeLoop A n sides nb v factors cnt j st).rows)
+  | 0, _, st, hc, hr, _ => ⟨hc, hr, fun _ h => h⟩
+  | cnt+1, j, st, hc, hr, hf => by
+    rw [removeLoop_succ]
+    have hnew : ∀ r ∈ overValues A n sides nb (toFactors (sel nb A) j) v factors st.ncols (A.getD v 0) 0,
+        ∀ e ∈ r.ent, e.1 < st.ncols + sides :=
+      overValues_bound A n sides (st.ncols + sides) nb _ v factors st.ncols (le_refl _)
+        (fun nd hnd r hr' => by have := hf nd hnd r hr'; omega) _ 0
+    have hrows : ∀ (rows : List CRow), rows = st.rows ++ overValues A n sides nb (toFactors (sel nb A) j) v factors st.ncols (A.getD v 0) 0 →
+        ∀ r ∈ rows, ∀ e ∈ r.ent, e.1 < st.ncols + sides := by
+      intro rows hrw r hr' e he
+      rw [hrw] at hr'
+      rcases List.mem_append.mp hr' with h | h
+      · have := hr r h e he; omega
+      · exact hnew r h e he
+    by_cases he : nb.isEmpty = true
+    · simp only [he, if_true]
+      obtain ⟨h1, h2, h3⟩ := removeLoop_inv nb v factors cnt (j+1)
+        { st with finals := st.finals ++ [st.ncols], ncols := st.ncols + sides,
+                  rows := st.rows ++ overValues A n sides nb (toFactors (sel nb A) j) v factors st.ncols (A.getD v 0) 0 }
+        ⟨fun nd hnd r hr' => by have := hc.1 nd hnd r hr'; simp only; omega,
+         fun c hcm => by
+           simp only [List.mem_append, List.mem_singleton] at hcm
+           rcases hcm with h | h
+           · have := hc.2 c h; simp only; omega
+           · subst h; simp only; omega⟩
+        (hrows _ rfl)
+        (fun nd hnd r hr' => by have := hf nd hnd r hr'; simp only; omega)
+      exact ⟨h1, h2, fun r hr' => h3 r (List.mem_append.mpr (Or.inl hr'))⟩
+    · have he' : nb.isEmpty = false := by simpa using he
+      simp only [he', Bool.false_eq_true, if_false]
+      obtain ⟨h1, h2, h3⟩ := removeLoop_inv nb v factors cnt (j+1)
+        { st with graph := addRule nb (j, st.ncols) st.graph, ncols := st.ncols + sides,
+                  rows := st.rows ++ overValues A n sides nb (toFactors (sel nb A) j) v factors st.ncols (A.getD v 0) 0 }
+        ⟨fun nd hnd r hr' => by
+           rcases addRule_rules nb (j, st.ncols) st.graph nd hnd r hr' with h | ⟨nd', h1, h2⟩
+           · subst h; simp only; omega
+           · have := hc.1 nd' h1 r h2; simp only; omega,
+         fun c hcm => by have := hc.2 c hcm; simp only; omega⟩
+        (hrows _ rfl)
+        (fun nd hnd r hr' => by have := hf nd hnd r hr'; simp only; omega)
+      exact ⟨h1, h2, fun r hr' => h3 r (List.mem_append.mpr (Or.inl hr'))⟩
+
+theorem removeVar_inv (v : Nat) (st : GenSt) (hc : CInv sides st) (hr : RInv st) :
+    CInv sides (removeVar A n sides v st) ∧ RInv (removeVar A n sides v st) ∧
+    (∀ r ∈ st.rows, r ∈ (removeVar A n sides v st).rows) := by
+  simp only [removeVar]
+  obtain ⟨g, hg⟩ : ∃ g, g = (if (nbrs n v (st.graph.map (·.keys))).isEmpty || st.graph.any (fun nd => nd.keys == nbrs n v (st.graph.map (·.keys))) then st.graph else st.graph ++ [⟨nbrs n v (st.graph.map (·.keys)), []⟩]) := ⟨_, rfl⟩
+  rw [← hg]
+  have hcg : CInv sides { st with graph := g } := by
+    refine ⟨?_, hc.2⟩
+    intro nd hnd r hr'
+    rw [hg] at hnd
+    split at hnd
+    · exact hc.1 nd hnd r hr'
+    · rcases List.mem_append.mp hnd with h | h
+      · exact hc.1 nd h r hr'
+      · simp only [List.mem_singleton] at h; subst h; simp at hr'
+  obtain ⟨h1, h2, h3⟩ := removeLoop_inv A n sides (nbrs n v (st.graph.map (·.keys))) v
+    (st.graph.filter (fun nd => nd.keys.contains v)) (spacePartial (nbrs n v (st.graph.map (·.keys))) A) 0
+    { st with graph := g } hcg hr (fun nd hnd r hr' => hc.1 nd (List.mem_filter.mp hnd).1 r hr')
+  exact ⟨⟨fun nd hnd r hr' => h1.1 nd (List.mem_filter.mp hnd).1 r hr', h1.2⟩, h2, h3⟩
+
+theorem removeLoop_keys (nb : List Nat) (v : Nat) (factors : List LNode) :
+    ∀ (cnt j : Nat) (st : GenSt), ∀ nd ∈ (removeLoop A n sides nb v factors cnt j st).graph,
+      (nb.isEmpty = false ∧ nd.keys = nb) ∨ ∃ nd' ∈ st.graph, nd'.keys = nd.keys
+  | 0, _, st, nd, h => Or.inr ⟨nd, h, rfl⟩
+  | cnt+1, j, st, nd, h => by
+    rw [removeLoop_succ] at h
+    rcases removeLoop_keys nb v factors cnt (j+1) _ nd h with h' | ⟨nd', h1, h2⟩
+    · exact Or.inl h'
+    · by_cases he : nb.isEmpty = true
+      · simp only [he, if_true] at h1; exact Or.inr ⟨nd', h1, h2⟩
+      · have he' : nb.isEmpty = false := by simpa using he
+        simp only [he', Bool.false_eq_true, if_false] at h1
+        rcases addRule_keys nb _ st.graph nd' h1 with h3 | ⟨nd'', h3, h4⟩
+        · exact Or.inl ⟨he', by rw [← h2, h3]⟩
+        · exact Or.inr ⟨nd'', h3, by rw [h4, h2]⟩
+
+theorem removeVar_LInvL (v : Nat) (active : List Nat) (st : GenSt)
+    (hinv : LInvL active st.graph) : LInvL (active.filter (· != v)) (removeVar A A.length sides v st).graph := by
+  intro nd hnd
+  simp only [removeVar] at hnd
+  obtain ⟨hmem, hnv⟩ := List.mem_filter.mp hnd
+  have hnv' : ∀ u ∈ nd.keys, u ≠ v := by
+    intro u hu e; subst e
+    simp at hnv
+    exact hnv hu
+  have hold : ∀ nd' ∈ st.graph, nd'.keys = nd.keys → nd.keys ≠ [] ∧ ∀ u ∈ nd.keys, u ∈ active.filter (· != v) := by
+    intro nd' h1 h2
+    obtain ⟨k1, k2⟩ := hinv nd' h1
+    rw [h2] at k1 k2
+    exact ⟨k1, fun u hu => List.mem_filter.mpr ⟨k2 u hu, by simpa using hnv' u hu⟩⟩
+  have hnbcase : ∀ nb, nb = nbrs A.length v (st.graph.map (·.keys)) → nb.isEmpty = false → nd.keys = nb →
+      nd.keys ≠ [] ∧ ∀ u ∈ nd.keys, u ∈ active.filter (· != v) := by
+    intro nb hnb he hk
+    refine ⟨by rw [hk]; intro e; simp [e] at he, ?_⟩
+    intro u hu
+    have hu' : u ∈ nbrs A.length v (st.graph.map (·.keys)) := by rw [← hnb, ← hk]; exact hu
+    obtain ⟨_, hne, s, hs, _, hus⟩ := (mem_nbrs _ _ _ _).mp hu'
+    obtain ⟨nd', hnd', rfl⟩ := List.mem_map.mp hs
+    exact List.mem_filter.mpr ⟨(hinv nd' hnd').2 u hus, by simpa using hne⟩
+  rcases removeLoop_keys A A.length sides _ v _ _ _ _ nd hmem with ⟨he, hk⟩ | ⟨nd', h1, h2⟩
+  · exact hnbcase _ rfl he hk
+  · simp only at h1
+    split at h1
+    · exact hold nd' h1 h2
+    · rcases List.mem_append.mp h1 with h1 | h1
+      · exact hold nd' h1 h2
+      · simp only [List.mem_singleton] at h1
+        subst h1
+        rename_i hcond
+        have he : (nbrs A.length v (st.graph.map (·.keys))).isEmpty = false := by
+          by_contra hc
+          have : (nbrs A.length v (st.graph.map (·.keys))).isEmpty = true := by simpa using hc
+          simp [this] at hcond
+        exact hnbcase _ rfl he h2.symm
+
+end inv
+
+/-! ## the whole `while (graph.variableSize()) removeFactor(…)` loop -/
+
+section loop
+variable (A : List Nat) (sides : Nat)
+
+/-- what the loop guarantees from state `st` to its end state `fin` -/
+structure LoopSpec (st fin : GenSt) : Prop where
+  graph_nil : fin.graph = []
+  cinv : CInv sides fin
+  rinv : RInv fin
+  ncols_le : st.ncols ≤ fin.ncols
+  rows_mono : ∀ r ∈ st.rows, r ∈ fin.rows
+  /-- soundness: rows satisfied ⇒ the sum of the final columns dominates the state value everywhere, on every side -/
+  sound : ∀ u, (∀ r ∈ fin.rows, r.sat u) → ∀ d, d < sides → ∀ a, Valid A a →
+    stVal (shift u d) A a st ≤ sumU (shift u d) fin.finals
+  /-- completeness: a valuation satisfying the rows so far extends (same old columns) to one satisfying all rows whose
+      final sum is ATTAINED by the state value at some in-range joint assignment, on every side -/
+  complete : ∀ u, (∀ r ∈ st.rows, r.sat u) → ∃ u', (∀ c, c < st.ncols → u' c = u c) ∧ (∀ r ∈ fin.rows, r.sat u') ∧
+    ∀ d, d < sides → ∃ a', Valid A a' ∧ sumU (shift u' d) fin.finals = stVal (shift u d) A a' st
+
+theorem genLoop_nil (hA : ∀ d ∈ A, 0 < d) (fuel : Nat) (st : GenSt) (hinv : LInvL [] st.graph) (hc : CInv sides st) (hr : RInv st) :
+    LoopSpec A sides st (genLoop A A.length sides fuel [] st) := by
+  have hg : st.graph = [] := by
+    cases hgr : st.graph with
+    | nil => rfl
+    | cons nd g =>
+      have := hinv nd (by rw [hgr]; exact List.mem_cons_self ..)
+      obtain ⟨u, hu⟩ := List.exists_mem_of_ne_nil _ this.1
+      exact absurd (this.2 u hu) (by simp)
+  have : genLoop A A.length sides fuel [] st = st := by cases fuel <;> rfl
+  rw [this]
+  refine ⟨hg, hc, hr, le_refl _, fun _ h => h, ?_, ?_⟩
+  · intro u _ d _ a _
+    simp only [stVal, hg, gVal, hits, sumU]; linarith
+  · intro u hu
+    refine ⟨u, fun _ _ => rfl, hu, fun d _ => ⟨A.map (fun _ => 0), valid_zeros A hA, ?_⟩⟩
+    simp only [stVal, hg, gVal, hits, sumU]; ring
+
+/-- the loop, for whatever variable `bestVariableToRemove` picks at each round -/
+theorem genLoop_spec (hA : ∀ d ∈ A, 0 < d) : ∀ (fuel : Nat) (active : List Nat) (st : GenSt),
+    active.length ≤ fuel → (∀ u ∈ active, u < A.length) → LInvL active st.graph → CInv sides st → RInv st →
+    LoopSpec A sides st (genLoop A A.length sides fuel active st) := by
+  intro fuel
+  induction fuel with
+  | zero =>
+    intro active st hlen _ hinv hc hr
+    have : active = [] := List.length_eq_zero_iff.mp (by omega)
+    subst this
+    exact genLoop_nil A sides hA 0 st hinv hc hr
+  | succ fuel ih =>
+    intro active st hlen hact hinv hc hr
+    cases active with
+    | nil => exact genLoop_nil A sides hA (fuel+1) st hinv hc hr
+    | cons x xs =>
+      obtain ⟨v, hvdef⟩ : ∃ v, v = bestVar A A.length (x :: xs) (st.graph.map (·.keys)) := ⟨_, rfl⟩
+      have hvmem : v ∈ x :: xs := by rw [hvdef]; exact bestVar_mem _ _ _ _ (by simp)
+      have hv : v < A.length := hact v hvmem
+      have hpos : 0 < A.getD v 0 := by
+        have : A.getD v 0 = A[v] := by simp [List.getD_eq_getElem?_getD, List.getElem?_eq_getElem hv]
+        rw [this]; exact hA _ (List.getElem_mem hv)
+      have hk : GKeysL A.length st.graph := fun nd hnd u hu => hact u ((hinv nd hnd).2 u hu)
+      have hstep : genLoop A A.length sides (fuel+1) (x :: xs) st
+          = genLoop A A.length sides fuel ((x :: xs).filter (· != v)) (removeVar A A.length sides v st) := by
+        rw [hvdef]; rfl
+      rw [hstep]
+      have hlen' : ((x :: xs).filter (· != v)).length ≤ fuel := by
+        have := length_filter_ne_lt v (x :: xs) hvmem
+        simp only [List.length_cons] at hlen this ⊢; omega
+      obtain ⟨hc1, hr1, hmono1⟩ := removeVar_inv A A.length sides v st hc hr
+      have hncols1 : st.ncols ≤ (removeVar A A.length sides v st).ncols := by
+        rw [(removeVar_rows A sides (fun _ => 0) v st).1]; omega
+      have IH := ih ((x :: xs).filter (· != v)) (removeVar A A.length sides v st) hlen'
+        (fun u hu => hact u (List.mem_filter.mp hu).1) (removeVar_LInvL A sides v (x :: xs) st hinv) hc1 hr1
+      refine ⟨IH.graph_nil, IH.cinv, IH.rinv, le_trans hncols1 IH.ncols_le, fun r h => IH.rows_mono r (hmono1 r h), ?_, ?_⟩
+      · intro u hu d hd a ha
+        have h1 := removeVar_ge A sides u a v st ha hv hk (fun r h => hu r (IH.rows_mono r h)) d hd
+        exact le_trans h1 (IH.sound u hu d hd a ha)
+      · intro u hu
+        obtain ⟨u1, hag1, hsat1, hatt1⟩ := removeVar_extend A sides v st hv hpos hk hc hr u hu
+        obtain ⟨u2, hag2, hsat2, hatt2⟩ := IH.complete u1 hsat1
+        refine ⟨u2, fun c h => by rw [hag2 c (by omega), hag1 c h], hsat2, ?_⟩
+        intro d hd
+        obtain ⟨a1, ha1, e1⟩ := hatt2 d hd
+        obtain ⟨k, hk1, e2⟩ := hatt1 d hd a1 ha1
+        exact ⟨setAt a1 v k, valid_setAt A a1 v k ha1 hk1 hv, by rw [e1, e2]⟩
+
+end loop
+
 end AITB.FLP
